@@ -103,9 +103,13 @@ func DrawWorld(t *rapid.T, o WorldOpts) *World {
 	gv, _ := labiSet(w.Vals, w.Weights)
 	mod := &simmod.Config{GenesisValidators: gv, PrecommitThreshold: pre, CertificateThreshold: cert, GenesisState: map[string][]byte{}, BlockEvents: simkit.Bool(t, "blockevents"),
 		Asset: simkit.Bool(t, "asset"), StrictNonce: true}
+	// the chain could start above height 0 (the certificate rules treat the first 100 heights specially)
+	// (always 0 for now: Chain.PrepareCache asks for heights below a non-zero genesis height whenever the chain is
+	// shorter than the block cache, so a node with such a genesis block does not start - see DESIGN, observations)
+	gh := uint32(0)
 	if o.ValidatorChanges {
 		nch := simkit.Int(t, "nchanges", 0, 3)
-		last := uint32(2)
+		last := gh + 2
 		prevWeights := map[int]uint64{}
 		for k, v := range w.Weights {
 			prevWeights[k] = v
@@ -195,7 +199,7 @@ func DrawWorld(t *rapid.T, o WorldOpts) *World {
 		cache = simkit.Int(t, "cache", 3, 12)
 	}
 	keep := []int{-1, 0, 5}[simkit.Int(t, "keepevents", 0, 2)]
-	w.P = &ChainParams{ChainID: []byte{0, 0, 0, 7}, BlockTime: blockTime, BatchSize: batch, MaxTxSize: uint32(simkit.Int(t, "maxtxsize", 300, 15000)), MaxBlockCache: cache, KeepEvents: keep,
+	w.P = &ChainParams{ChainID: []byte{0, 0, 0, 7}, GenesisHeight: gh, BlockTime: blockTime, BatchSize: batch, MaxTxSize: uint32(simkit.Int(t, "maxtxsize", 300, 15000)), MaxBlockCache: cache, KeepEvents: keep,
 		Pool: txpool.TransactionPoolConfig{MaxTransactions: 64, MaxTransactionsPerAccount: 8, MinReplacementFeeDifference: 10}, Module: mod}
 	if simkit.Bool(t, "smallmem") {
 		w.P.DBKnobs.MemTableSize = 256 << 10
@@ -254,7 +258,7 @@ func (w *World) StartAll() {
 }
 
 func (w *World) Describe() string {
-	s := fmt.Sprintf("validators=%d nodes=%d blocktime=%v batch=%d pre=%d cert=%d byz=%d", len(w.Vals), len(w.S.Nodes), w.BlockTime, w.P.BatchSize, w.P.Module.PrecommitThreshold, w.P.Module.CertificateThreshold, len(w.Byz))
+	s := fmt.Sprintf("validators=%d nodes=%d blocktime=%v batch=%d pre=%d cert=%d byz=%d genesis=%d", len(w.Vals), len(w.S.Nodes), w.BlockTime, w.P.BatchSize, w.P.Module.PrecommitThreshold, w.P.Module.CertificateThreshold, len(w.Byz), w.P.GenesisHeight)
 	return s
 }
 
